@@ -55,6 +55,7 @@ class HttpRelayClient(RelayPoolClient):
     def __init__(self, relay):
         super(HttpRelayClient, self).__init__(relay.queue, relay.idle_timeout)
         self.conn = None
+        self.response = None
         self.ehlo_as = None
         self.url = relay.url
         self.relay = relay
@@ -86,6 +87,7 @@ class HttpRelayClient(RelayPoolClient):
 
     def _new_conn(self):
         self.conn = get_connection(self.url, self.relay.context)
+        self.response = None
         try:
             self.ehlo_as = self.relay.ehlo_as()
         except TypeError:
@@ -106,6 +108,7 @@ class HttpRelayClient(RelayPoolClient):
         if self.conn:
             self.conn.close()
             self.conn = None
+        self.response = None
         if not result.ready():
             reply = Reply('450', ' '.join((esc, msg)))
             result.set_exception(TransientRelayError(msg, reply))
@@ -116,6 +119,11 @@ class HttpRelayClient(RelayPoolClient):
             self._new_conn()
             assert self.conn is not None
         with gevent.Timeout(self.relay.timeout):
+            if self.response is not None:
+                # A kept-alive connection takes the next request only once
+                # the previous response has been read to its end.
+                response, self.response = self.response, None
+                response.read()
             msg_headers, msg_body = envelope.flatten()
             headers = self._build_headers(envelope, msg_headers, msg_body)
             log.request(self.conn, method, self.url.path, headers)
@@ -125,7 +133,8 @@ class HttpRelayClient(RelayPoolClient):
                                     value.encode('iso-8859-1'))
             self.conn.endheaders(msg_headers)
             self.conn.send(msg_body)
-            self._process_response(self.conn.getresponse(), result)
+            self.response = self.conn.getresponse()
+            self._process_response(self.response, result)
 
     def _parse_smtp_reply_header(self, http_res):
         raw_reply = http_res.getheader('X-Smtp-Reply', '')
